@@ -75,7 +75,11 @@ class SocketSpawn(SpawnBase):
             return
 
         self.flush()
-        self.socket.shutdown(socket.SHUT_RDWR)
+        try:
+            self.socket.shutdown(socket.SHUT_RDWR)
+        except OSError:
+            # the peer has already torn the connection down; still release the socket
+            pass
         self.socket.close()
         self.child_fd = -1
         self.closed = True
